@@ -34,12 +34,12 @@ def publicCtors : List Ctor :=
 /-- arity of the private constructor `(max_element_count, varying_size_bytes, fixed_sizes, allocator, int)` -/
 def privateCtorArity : Nat := 5
 
-inductive ValCat | trivial | copyable | moveOnly
+inductive ValCat | trivial | integral | copyable | moveOnly
   deriving DecidableEq, Repr, Inhabited
 
 inductive Op
   | ctor | ctorAlloc | defaultCtor | copyCtor | moveCtor | copyAssign | moveAssign
-  | emplaceBack | popBack | erase1 | erase2 | clear | reserve | swap | eq | lt
+  | emplaceBack | popBack | erase1 | erase2 | clear | reserve | swap | eq | lt | eqOtherAlloc | ltOtherAlloc
   | iterate | bindRef | bindElem | subscript | frontBack | dataPtrs | iterArith | getFixedSize
   | refAssignRef | refMoveAssignRef | refSwap | refAssignElem | refMoveAssignElem
   | elemFromRef | elemFromRvalueRef | elemCopy | elemMove | elemAssign | elemMoveAssign | elemSwap | elemAssignRef | elemCompare
@@ -47,7 +47,7 @@ inductive Op
 
 def Op.all : List Op :=
   [.ctor, .ctorAlloc, .defaultCtor, .copyCtor, .moveCtor, .copyAssign, .moveAssign, .emplaceBack, .popBack, .erase1, .erase2,
-   .clear, .reserve, .swap, .eq, .lt, .iterate, .bindRef, .bindElem, .subscript, .frontBack, .dataPtrs, .iterArith, .getFixedSize,
+   .clear, .reserve, .swap, .eq, .lt, .eqOtherAlloc, .ltOtherAlloc, .iterate, .bindRef, .bindElem, .subscript, .frontBack, .dataPtrs, .iterArith, .getFixedSize,
    .refAssignRef, .refMoveAssignRef, .refSwap, .refAssignElem, .refMoveAssignElem, .elemFromRef, .elemFromRvalueRef, .elemCopy,
    .elemMove, .elemAssign, .elemMoveAssign, .elemSwap, .elemAssignRef, .elemCompare]
 
@@ -67,7 +67,7 @@ def required (o : Op) (c : Cat) (v : ValCat) : Bool :=
   o.appliesTo c && (!o.needsCopy || v != .moveOnly)
 
 def Cat.all : List Cat := [.plain, .fixed, .varying, .mixed]
-def ValCat.all : List ValCat := [.trivial, .copyable, .moveOnly]
+def ValCat.all : List ValCat := [.trivial, .integral, .copyable, .moveOnly]
 
 def requiredCells : List (Op × Cat × ValCat) :=
   Op.all.flatMap fun o => Cat.all.flatMap fun c => ValCat.all.filterMap fun v => if required o c v then some (o, c, v) else none
